@@ -38,9 +38,13 @@ def run(ctx):
                                           wires=(ctx.rng.randint(2, 4) if mode == 'clifford' else None),
                                           max_ops=(16 if mode == 'clifford' else 9), max_digits=(6 if mode == 'clifford' else 4))
         case_checks(ctx, cirq, c, qs, mode, checks)
+        if mode != 'terminal' and i % 3 == 0:
+            repetition_checks(ctx, cirq, c, qs, mode, checks)
     for i in range(70 * n):
         c, qs = mcircuits.clifford_deep(cirq, ctx.rng)
         case_checks(ctx, cirq, c, qs, 'clifford', checks)
+        if i % 2 == 0:
+            repetition_checks(ctx, cirq, c, qs, 'clifford', checks)
     for i in range(40 * n):
         c, qs = mcircuits.pauli_measure_circuit(cirq, ctx.rng)
         case_checks(ctx, cirq, c, qs, 'pauli', checks)
@@ -121,6 +125,55 @@ def case_checks(ctx, cirq, c, qs, mode, checks):
             expr = f'fcll_close {TOL} (ensemble_rho FOps {dim}%nat {model}) {gates.fmat(rho)}'
             what = f'{entry}: the probability-weighted mixture of the branch states differs from the reference ensemble on {desc}'
         checks.append((entry, expr, what, dict(signature=f'{entry}:{mode}:{features(cirq, c)}', entry=entry, circuit=repr(c), mode=mode)))
+
+
+def repetition_checks(ctx, cirq, c, qs, mode, checks):
+    """Two repetitions of one run call: each repetition has the distribution of the reference semantics and the two are
+    independent (a repetition must not see state left behind by the previous one)."""
+    rng = ctx.rng
+    try:
+        mops, meas, _ = opsem.circuit_to_mops(cirq, c, qs)
+    except opsem.Unsupported:
+        return
+    if sum(n for _, n in meas) > 3 or not meas:
+        return
+    shape = gates.nlist([q.dimension for q in qs])
+    dim = int(np.prod([q.dimension for q in qs]))
+    model = f'(exec FOps {shape} {mops} {gates.fvec(np.eye(dim)[0])})'
+    desc = str(c).replace('\n', ' | ')[:400]
+    entries = ['Simulator.run', 'DensityMatrixSimulator.run'] + (['CliffordSimulator.run', 'StabilizerSampler.run'] if mode == 'clifford' else [])
+    for entry in entries:
+        mk = {'Simulator.run': lambda s: cirq.Simulator(seed=s), 'DensityMatrixSimulator.run': lambda s: cirq.DensityMatrixSimulator(seed=s),
+              'CliffordSimulator.run': lambda s: cirq.CliffordSimulator(seed=s), 'StabilizerSampler.run': lambda s: cirq.StabilizerSampler(seed=s)}[entry]
+
+        def f(s):
+            recs = mk(s).run(c, repetitions=2).records
+            return (tuple(opsem.flat_record(recs, meas, 0)), tuple(opsem.flat_record(recs, meas, 1)))
+        try:
+            br = enumerate_runs(f)
+        except BranchExplosion:
+            ctx.count(entry + '[2 repetitions]:skipped-too-many-branches', [desc, entry], False)
+            continue
+        except Exception as e:
+            import traceback
+            ctx.violation(f'{entry}:raises:{type(e).__name__}', f'{entry} with repetitions=2 raised {type(e).__name__}: {e} on {desc}',
+                          dict(kind='mcircuit', entry=entry, circuit=repr(c), error=traceback.format_exc()[-1200:]))
+            continue
+        joint, m1, m2 = {}, {}, {}
+        for p, (r1, r2), _ in br:
+            joint[(r1, r2)] = joint.get((r1, r2), 0.0) + p
+            m1[r1] = m1.get(r1, 0.0) + p
+            m2[r2] = m2.get(r2, 0.0) + p
+        ctx.count(entry + '[2 repetitions]', [desc, entry], len([1 for v in m1.values() if v > 1e-9]) >= 2,
+                  sample=dict(circuit=desc, entry=entry, branches=len(br), first=sorted(m1.items()), second=sorted(m2.items())))
+        dep = max(abs(joint.get((a, b), 0.0) - m1[a] * m2[b]) for a in m1 for b in m2)
+        rp = dict(signature=f'{entry}:repetitions:{mode}:{features(cirq, c)}', entry=entry + '[2 repetitions]', circuit=repr(c), mode=mode)
+        if dep > 1e-6:
+            checks.append((entry, 'false', f'{entry}: two repetitions of one run are not independent on {desc}: P(first, second) differs from '
+                                           f'P(first) P(second) by {dep:.4f} (joint {sorted(joint.items())})', rp))
+        for which, m in (('first', m1), ('second', m2)):
+            checks.append((entry, f'dist_ok {TOL} {model} {dist_literal(m)}',
+                           f'{entry}: the {which} of two repetitions does not have the Born-rule distribution on {desc} (got {sorted(m.items())})', rp))
 
 
 def features(cirq, c):
